@@ -29,11 +29,10 @@ Fixpoint span_p (p : N -> bool) (s : str) : str * str :=
 
 Definition opt_exp (s : str) : bool := match s with [] => true | _ => is_exp s end.
 
-(* the body of the numeric-looking regex after the optional sign *)
-Definition numeric_body (b : str) : bool :=
+(* the body of the numeric-looking regex after the optional sign, alternative by alternative *)
+Definition nb_radix (b : str) : bool :=
   match b with
   | 48 :: 120 :: t | 48 :: 88 :: t => (match t with [] => false | _ => forallb (fun c => is_hex c || is_us c) t end)
-                      || false
   | _ => false
   end
   || match b with
@@ -43,17 +42,21 @@ Definition numeric_body (b : str) : bool :=
   || match b with
      | 48 :: 98 :: t | 48 :: 66 :: t => match t with [] => false | _ => forallb (fun c => (c =? 48) || (c =? 49) || is_us c) t end
      | _ => false
-     end
-  || (let '(pre, rest) := span_p (fun c => negb (c =? 46)) b in
-      match rest with
-      | _dot :: post =>
-        let '(f, e) := span_p digit_or_us post in
-        (d_us pre && opt_exp e) || (match pre with [] => d_us f && opt_exp e | _ => false end)
-      | [] => false
-      end)
-  || (let '(pre, rest) := span_p (fun c => negb ((c =? 101) || (c =? 69))) b in
-      d_us pre && is_exp rest)
-  || d_us b.
+     end.
+(* float with a dot: 1. , 1.0 , .5 , optional exponent *)
+Definition nb_dot (b : str) : bool :=
+  let '(pre, rest) := span_p (fun c => negb (c =? 46)) b in
+  match rest with
+  | _dot :: post =>
+    let '(f, e) := span_p digit_or_us post in
+    (d_us pre && opt_exp e) || (match pre with [] => d_us f && opt_exp e | _ => false end)
+  | [] => false
+  end.
+(* scientific without a dot: 1e9 *)
+Definition nb_exp (b : str) : bool :=
+  let '(pre, rest) := span_p (fun c => negb ((c =? 101) || (c =? 69))) b in
+  d_us pre && is_exp rest.
+Definition numeric_body (b : str) : bool := nb_radix b || nb_dot b || nb_exp b || d_us b.
 
 Definition is_numeric_looking (s : str) : bool := numeric_body (strip_sign s).
 
